@@ -183,7 +183,7 @@ func (cfg *c10Cfg) yaml(dir string, upAddr map[string]string, listenUDP, listenT
 }
 
 func runC10(c *Ctx) {
-	nGood, nBad := c.N(60, 600), c.N(24, 120)
+	nGood, nBad := c.N(60, 600), c.N(25, 150)
 	parallelFor(nGood, 8, func() bool { return c.ViolationCount() >= 10 }, func(i int) { c10Good(c, i) })
 	parallelFor(nBad, 6, func() bool { return c.ViolationCount() >= 10 }, func(i int) { c10Bad(c, i) })
 }
@@ -385,6 +385,8 @@ func c10Outcome(rcode int, up string) string {
 }
 
 var c10BadKinds = []string{"unknown-upstream-tag", "unknown-domain-tag", "dup-upstream-tag", "dup-domain-tag",
+	"unknown-upstream-tag-in-reject-rule", "unknown-upstream-tag-in-reverse-rule", "unknown-upstream-tag-no-domain", "unknown-upstream-tag-later-rule",
+	"unknown-domain-tag-in-reject-rule", "unknown-domain-tag-later-rule", "unknown-domain-tag-with-reverse", "dup-upstream-tag-nonadjacent", "dup-domain-tag-nonadjacent",
 	"unknown-key-top", "unknown-key-server", "unknown-key-upstream-tls", "unknown-key-rule", "unknown-key-cache", "unknown-key-limiter-client", "unknown-key-upstream", "unknown-key-domain-set"}
 
 func c10Bad(c *Ctx, idx int) {
@@ -417,6 +419,24 @@ func c10Bad(c *Ctx, idx int) {
 		rules = "rules:\n  - domain: s0\n    forward: nosuchup\n"
 	case "unknown-domain-tag":
 		rules = "rules:\n  - domain: nosuchset\n    forward: up0\n"
+	case "unknown-upstream-tag-in-reject-rule":
+		rules = "rules:\n  - domain: s0\n    reject: 3\n    forward: nosuchup\n"
+	case "unknown-upstream-tag-in-reverse-rule":
+		rules = "rules:\n  - domain: s0\n    reverse: true\n    forward: nosuchup\n  - forward: up0\n"
+	case "unknown-upstream-tag-no-domain":
+		rules = "rules:\n  - forward: nosuchup\n"
+	case "unknown-upstream-tag-later-rule":
+		rules = "rules:\n  - domain: s0\n    forward: up0\n  - reject: 5\n    domain: s0\n  - forward: nosuchup\n"
+	case "unknown-domain-tag-in-reject-rule":
+		rules = "rules:\n  - domain: nosuchset\n    reject: 3\n"
+	case "unknown-domain-tag-later-rule":
+		rules = "rules:\n  - domain: s0\n    forward: up0\n  - domain: nosuchset\n    forward: up0\n"
+	case "unknown-domain-tag-with-reverse":
+		rules = "rules:\n  - domain: nosuchset\n    reverse: true\n    forward: up0\n"
+	case "dup-upstream-tag-nonadjacent":
+		upstreams += fmt.Sprintf("  - tag: up1\n    addr: \"udp://%s\"\n  - tag: up0\n    addr: \"udp://%s\"\n", up.Addr["udp"], up.Addr["udp"])
+	case "dup-domain-tag-nonadjacent":
+		sets += fmt.Sprintf("  - tag: s1\n    files: [\"%s\"]\n  - tag: s0\n    files: [\"%s\"]\n", setFile, setFile)
 	case "dup-upstream-tag":
 		upstreams += fmt.Sprintf("  - tag: up0\n    addr: \"udp://%s\"\n", up.Addr["udp"])
 	case "dup-domain-tag":
